@@ -114,16 +114,16 @@ Lemma checkHostmask_fields istr t now u h ua :
   u_name u' = u_name u /\ u_masks u' = u_masks u /\ u_secure u' = u_secure u.
 Proof.
   unfold checkHostmask. destruct ua; [|cbn; auto].
-  destruct (scan_auth (if istr then ieq else seq_eqb) t now h (u_auth u) []) as [hit rem].
+  destruct (scan_auth (auth_eq istr u h) t now h (u_auth u) []) as [hit rem].
   destruct hit; cbn; auto.
 Qed.
 
 Lemma checkHostmask_auth istr t now u h :
   u_auth (fst (checkHostmask istr t now u h true)) =
-  prune (snd (scan_auth (if istr then ieq else seq_eqb) t now h (u_auth u) [])) (u_auth u).
+  prune (snd (scan_auth (auth_eq istr u h) t now h (u_auth u) [])) (u_auth u).
 Proof.
   unfold checkHostmask.
-  destruct (scan_auth (if istr then ieq else seq_eqb) t now h (u_auth u) []) as [hit rem].
+  destruct (scan_auth (auth_eq istr u h) t now h (u_auth u) []) as [hit rem].
   destruct hit; reflexivity.
 Qed.
 
@@ -145,8 +145,8 @@ Qed.
 Lemma checkHostmask_recog istr t now u h ua h2 :
   recog t now (fst (checkHostmask istr t now u h ua)) h2 = recog t now u h2.
 Proof.
-  pose proof (checkHostmask_fields istr t now u h ua) as [_ [Hm _]]. cbv zeta in Hm.
-  unfold recog, mask_match. rewrite Hm. f_equal. unfold live_auth.
+  pose proof (checkHostmask_fields istr t now u h ua) as [_ [Hm Hs]]. cbv zeta in Hm, Hs.
+  unfold recog, mask_match. rewrite Hm, Hs. f_equal. f_equal. unfold live_auth.
   set (f := fun e : Z * str => negb (expired t now (fst e)) && seq_eqb h2 (snd e)).
   destruct (existsb f (u_auth u)) eqn:E.
   - apply existsb_exists in E as [e [Hin He]]. apply existsb_exists. exists e. split; [|exact He].
@@ -158,12 +158,15 @@ Proof.
 Qed.
 
 (* the account's hostmasks and logins, expired or not *)
+(* with its current masks and flag: a login (expired or not) of an account that
+   is not secure, or a matching mask *)
 Definition recog_ever (u : user) (h : str) : bool :=
-  existsb (fun e => seq_eqb h (snd e)) (u_auth u) || mask_match u h.
+  (existsb (fun e => seq_eqb h (snd e)) (u_auth u) && negb (u_secure u)) || mask_match u h.
 
 Lemma recog_recog_ever t now u h : recog t now u h = true -> recog_ever u h = true.
 Proof.
   unfold recog, recog_ever, live_auth. intro H. apply orb_true_iff in H as [H|H]; [|rewrite H; apply orb_true_r].
+  apply andb_true_iff in H as [H Hs]. rewrite Hs, andb_true_r.
   apply existsb_exists in H as [e [Hin He]]. apply andb_true_iff in He as [_ He].
   apply orb_true_iff. left. apply existsb_exists. exists e. auto.
 Qed.
@@ -172,8 +175,9 @@ Qed.
 Lemma checkHostmask_ever istr t now u h ua h2 :
   recog_ever (fst (checkHostmask istr t now u h ua)) h2 = true -> recog_ever u h2 = true.
 Proof.
-  pose proof (checkHostmask_fields istr t now u h ua) as [_ [Hm _]]. cbv zeta in Hm.
-  unfold recog_ever, mask_match. rewrite Hm. intro H. apply orb_true_iff in H as [H|H]; [|rewrite H; apply orb_true_r].
+  pose proof (checkHostmask_fields istr t now u h ua) as [_ [Hm Hs]]. cbv zeta in Hm, Hs.
+  unfold recog_ever, mask_match. rewrite Hm, Hs. intro H. apply orb_true_iff in H as [H|H]; [|rewrite H; apply orb_true_r].
+  apply andb_true_iff in H as [H Hsec]. rewrite Hsec, andb_true_r.
   apply existsb_exists in H as [e [Hin He]]. apply checkHostmask_sub in Hin.
   apply orb_true_iff. left. apply existsb_exists. exists e. auto.
 Qed.
@@ -184,19 +188,21 @@ Lemma checkHostmask_clean t now u h :
   truthy (snd (checkHostmask false t now u h true)) = false ->
   recog_ever (fst (checkHostmask false t now u h true)) h = false.
 Proof.
-  intro Ht. pose proof (checkHostmask_truthy false t now u h) as Hr. rewrite Ht in Hr. cbv iota in Hr.
-  symmetry in Hr. apply orb_false_iff in Hr as [Hlive Hmask].
-  pose proof (checkHostmask_fields false t now u h true) as [_ [Hm _]]. cbv zeta in Hm.
+  intro Ht. pose proof (checkHostmask_truthy t now u h) as Hr. rewrite Ht in Hr.
+  pose proof (checkHostmask_truthy_gen false t now u h) as Hg. rewrite Ht in Hg.
+  symmetry in Hr, Hg. unfold recog in Hr. apply orb_false_iff in Hr as [Hlive Hmask]. apply orb_false_iff in Hg as [Hhit0 _].
+  pose proof (checkHostmask_fields false t now u h true) as [_ [Hm Hs]]. cbv zeta in Hm, Hs.
   unfold recog_ever. apply orb_false_iff. split; [|unfold mask_match in *; rewrite Hm; exact Hmask].
+  rewrite Hs. destruct (u_secure u) eqn:Esec; [apply andb_false_r|]. rewrite andb_true_r. cbn [negb] in Hlive. rewrite andb_true_r in Hlive.
   destruct (existsb (fun e => seq_eqb h (snd e)) (u_auth (fst (checkHostmask false t now u h true)))) eqn:E; [|reflexivity].
   exfalso.
-  apply existsb_exists in E as [e [Hin He]]. rewrite checkHostmask_auth in Hin. cbv iota in Hin.
-  unfold live_auth in Hlive. pose proof (scan_auth_hit seq_eqb t now h (u_auth u) []) as Hhit.
-  rewrite Hlive in Hhit.
+  apply existsb_exists in E as [e [Hin He]]. rewrite checkHostmask_auth in Hin.
+  pose proof (scan_auth_hit (auth_eq false u h) t now h (u_auth u) []) as Hhit.
+  unfold live_auth in Hhit0. rewrite Hhit0 in Hhit.
   destruct (expired t now (fst e)) eqn:Ex.
   - pose proof (cnt_In _ _ Hin) as Hpos. rewrite cnt_prune in Hpos.
-    rewrite (scan_auth_cnt seq_eqb t now h (u_auth u) [] e Hhit Ex) in Hpos. cbn [cnt] in Hpos. lia.
-  - apply prune_In in Hin.
+    rewrite (scan_auth_cnt (auth_eq false u h) t now h (u_auth u) [] e Hhit Ex) in Hpos. cbn [cnt] in Hpos. lia.
+  - apply prune_In in Hin. unfold live_auth in Hlive.
     assert (existsb (fun e0 => negb (expired t now (fst e0)) && seq_eqb h (snd e0)) (u_auth u) = true).
     { apply existsb_exists. exists e. split; [exact Hin|]. rewrite Ex, He. reflexivity. }
     congruence.
